@@ -19,7 +19,7 @@ MODULE = "TraceHdcAlgo"
 
 def run(tier, seed):
     rep = core.Report("X03", tier, seed)
-    cfg = "SPECIFICATION Spec\nCHECK_DEADLOCK FALSE\nINVARIANT OnlyLazyKernels\nINVARIANT CompiledIffUsed\nPROPERTY Monotone\n"
+    cfg = "SPECIFICATION FairSpec\nCHECK_DEADLOCK FALSE\nINVARIANT OnlyLazyKernels\nPROPERTY Monotone\nPROPERTY AllReachable\n"
     r = core.must_pass(core.tlc("MCHdcAlgo", cfg, workers=core.NCPU, timeout=1800, heap="6g"), "session model")
     rep.add_mc("MCHdcAlgo (all sessions over 12 operations x 9 fact variants: invariants, monotone cache)", r)
     env = dict(os.environ, PYTHONPATH=f"{core.VERIF}:{core.REPO}")
